@@ -24,11 +24,13 @@ import (
 	"errors"
 	"fmt"
 	"math/rand"
+	"os"
 	"runtime"
 	"sort"
 	"strings"
 	"sync"
 	"sync/atomic"
+	"syscall"
 	"time"
 
 	"google.golang.org/grpc"
@@ -106,6 +108,8 @@ type callRec struct {
 	// set by the oracle
 	servedBy *dialRec
 	class    string
+	errTxt   string
+	errSound bool
 }
 
 func (c *callRec) firstRelease() *doneRec {
@@ -160,6 +164,7 @@ type trial struct {
 	byPtr   map[*grpc.ClientConn]*connRec
 	viols   []violation
 	calls   [][]*callRec // per worker
+	qTicks  []int64
 	dialCtr int32
 	connCtr int32
 
@@ -172,7 +177,7 @@ type trial struct {
 	pert *vlib.Perturb
 
 	// counters
-	nSamples, nStw, stwOpenHeld, stwClosedReleased int64
+	nSamples, nStw, stwOpenHeld, stwClosedReleased  int64
 	hookJoin, hookFail, hookClose, hookCloseUnknown int64
 	gateJoined, gateSpinners, waitJoinSatisfied     int64
 	failed                                          int32
@@ -502,6 +507,7 @@ func (t *trial) quiescent(final bool) {
 	q := tick()
 	atomic.AddInt64(&t.nStw, 1)
 	t.mu.Lock()
+	t.qTicks = append(t.qTicks, q)
 	conns := append([]*connRec{}, t.conns...)
 	t.mu.Unlock()
 	for _, cr := range conns {
@@ -672,6 +678,21 @@ func (t *trial) cycle(w, i int, rng *rand.Rand, pending *[]*handle, st *[]stale)
 
 // ---------- oracle over the recorded history ----------
 
+// errText renders an error defensively: a broken manager can hand out a torn
+// interface value.
+func errText(err error) (s string, sound bool) {
+	defer func() {
+		if p := recover(); p != nil {
+			s, sound = fmt.Sprintf("(unusable error value: %v)", p), false
+		}
+	}()
+	var de *dialErr
+	if errors.As(err, &de) && de == nil {
+		return "(nil *dialErr)", false
+	}
+	return err.Error(), true
+}
+
 func isCtxErr(err error) bool {
 	return errors.Is(err, context.Canceled) || errors.Is(err, context.DeadlineExceeded)
 }
@@ -705,6 +726,11 @@ func (t *trial) judge(all []*callRec) {
 	// (b) attribute every result to a dial.
 	served := map[*dialRec][]*callRec{}
 	for _, c := range all {
+		if c.Err != nil {
+			c.errTxt, c.errSound = errText(c.Err)
+		}
+	}
+	for _, c := range all {
 		if c.Panic != "" {
 			c.class = "panic"
 			continue
@@ -716,7 +742,7 @@ func (t *trial) judge(all []*callRec) {
 			t.viol("result-not-from-a-dial", c.Addr, "%s returned a nil done function", name)
 		case c.RawConn && c.Err != nil:
 			c.class = "malformed"
-			t.viol("result-not-from-a-dial", c.Addr, "%s returned both a connection and the error %v", name, c.Err)
+			t.viol("result-not-from-a-dial", c.Addr, "%s returned both a connection and the error %s", name, c.errTxt)
 		case !c.RawConn && c.Err == nil:
 			c.class = "malformed"
 			t.viol("result-not-from-a-dial", c.Addr, "%s returned neither a connection nor an error", name)
@@ -736,8 +762,14 @@ func (t *trial) judge(all []*callRec) {
 			served[d] = append(served[d], c)
 		default:
 			var de *dialErr
+			if !c.errSound {
+				// A torn or typed-nil error value: only a racy publication of the dial result produces this.
+				c.class = "malformed"
+				t.viol("result-not-from-a-dial", c.Addr, "%s returned an error value that cannot be used (nil pointer inside a non-nil error)", name)
+				break
+			}
 			switch {
-			case errors.As(c.Err, &de) && byID[de.ID] != nil && byID[de.ID].Err == de:
+			case errors.As(c.Err, &de) && de != nil && byID[de.ID] != nil && byID[de.ID].Err == de:
 				c.class = "dial-error"
 				d := byID[de.ID]
 				if d.Addr != c.Addr {
@@ -750,23 +782,23 @@ func (t *trial) judge(all []*callRec) {
 				c.class = "ctx-error"
 				ct := atomic.LoadInt64(&c.cancelTick)
 				if ct == 0 || ct > c.Ret {
-					t.viol("fabricated-context-error", c.Addr, "%s returned %v although its own context was not cancelled before it returned (cancel tick %d) and no dial produced that error", name, c.Err, ct)
+					t.viol("fabricated-context-error", c.Addr, "%s returned %q although its own context was not cancelled before it returned (cancel tick %d) and no dial produced that error", name, c.errTxt, ct)
 				}
-			case strings.Contains(c.Err.Error(), "no such dialer"):
+			case strings.Contains(c.errTxt, "no such dialer"):
 				c.class = "nodialer-error"
 				ok := false
 				for _, o := range all {
-					if o.Addr == c.Addr && o.Dialer == unknownDialer && o.Panic == "" && o.Err != nil && o.Err.Error() == c.Err.Error() && o.Call < c.Ret && c.Call < o.Ret {
+					if o.Addr == c.Addr && o.Dialer == unknownDialer && o.Panic == "" && o.Err != nil && o.errSound && o.errTxt == c.errTxt && o.Call < c.Ret && c.Call < o.Ret {
 						ok = true
 						break
 					}
 				}
 				if !ok {
-					t.viol("result-not-from-a-dial", c.Addr, "%s returned %q but no overlapping request for that address named an unknown dialer", name, c.Err)
+					t.viol("result-not-from-a-dial", c.Addr, "%s returned %q but no overlapping request for that address named an unknown dialer", name, c.errTxt)
 				}
 			default:
 				c.class = "other-error"
-				t.viol("result-not-from-a-dial", c.Addr, "%s returned the error %q, which is neither the outcome of a dial of that address nor its own context's error", name, c.Err)
+				t.viol("result-not-from-a-dial", c.Addr, "%s returned the error %q, which is neither the outcome of a dial of that address nor its own context's error", name, c.errTxt)
 			}
 		}
 	}
@@ -875,7 +907,7 @@ func (t *trial) history(all []*callRec, addr int, limit int) []string {
 		case c.RawConn:
 			res = "unknown conn"
 		case c.Err != nil:
-			res = "err: " + c.Err.Error()
+			res = "err: " + c.errTxt
 		default:
 			res = "nil,nil"
 		}
@@ -891,6 +923,9 @@ func (t *trial) history(all []*callRec, addr int, limit int) []string {
 			}
 			ls = append(ls, line{d.Call, fmt.Sprintf("[%d-%d] w%d#%d done(%s)%s", d.Call, d.Ret, c.Worker, c.Seq, d.Kind, p)})
 		}
+	}
+	for _, q := range t.qTicks {
+		ls = append(ls, line{q, fmt.Sprintf("[%d] quiescent check (no call in flight)", q)})
 	}
 	sort.Slice(ls, func(i, j int) bool { return ls[i].at < ls[j].at })
 	out := make([]string, 0, len(ls))
@@ -1181,8 +1216,19 @@ func postMerge(tier string, c map[string]int64) []string {
 }
 
 func main() {
+	// Race reports are diagnostic for this property (it does not state freedom
+	// from data races). The race runtime exits with status 66 after any report,
+	// which the parent would take for a failed child; re-execute the
+	// race-instrumented child once with exitcode=0 so that its result counts and
+	// the reports are still collected from the race log.
+	if os.Getenv("VERIF_RACE") == "1" && !strings.Contains(os.Getenv("GORACE"), "exitcode=") {
+		if exe, err := os.Executable(); err == nil {
+			os.Setenv("GORACE", strings.TrimSpace(os.Getenv("GORACE")+" exitcode=0"))
+			syscall.Exec(exe, os.Args, os.Environ()) // returns only on failure: then run as we are
+		}
+	}
 	vlib.Main(&vlib.Spec{
-		ID: "C16",
+		ID:   "C16",
 		Rule: "Concurrent trials on the real connection.Manager (NewManagerCustom, two dialer names sharing one scripted dial function): 4-32 goroutines x 2-40 acquire/hold/release cycles over 1-3 addresses (optionally skewed to one), GOMAXPROCS 2/4/8/16, per-address dial scripts drawn from the trial seed (success / error / slow by yielding, sleeping or waiting for joiners / honours-cancel), caller contexts background / cancelled before the call / cancelled during it, unknown dialer names, holds of none / yields / microseconds / across later cycles, second releases with probability 0.2 (immediately or cycles later, also while the worker holds a newer connection of that address), releases of failed requests, stop-the-world quiescent checks at seeded moments and at the end; seeded delays at connection.join / connection.dialfail, and in half of the trials connection.dialfail is gated until further callers joined, which are then released into the instant the failure is published. Every call/return, dial start/end, connection.close event and connectivity state sample is stamped by one atomic clock and judged after the trial. A trial is distinct non-trivial when the oracle ran to a verdict, at least one dial was shared by two or more callers and at least one dial failed or an address was re-dialled after its connection's last release; the hash is over the per-dial (address, outcome, number of callers served) sequence and the per-call (worker, address, result class) sequence in clock order.",
 		Assumptions: []string{
 			"closed is observed as connectivity state Shutdown of a real *grpc.ClientConn made by grpc.NewClient on a passthrough target (no traffic); grpc sets that state synchronously inside Close",
